@@ -7,7 +7,7 @@ Confirms in a scratch worktree: demo passes on the clean tree, fails with the pa
 import json, os, shutil, subprocess, sys, tempfile
 
 pid, mi, sid, needs = sys.argv[1:5]
-src = os.environ.get("SEED_SRC", "/tmp/seed") + f"/out-{pid}"
+src = os.environ.get("SEED_SRC", "/tmp/seed") + f"/{os.environ.get('SEED_OUT', 'out')}-{pid}"
 dst = f"/verif/seeded/{sid}"
 d = tempfile.mkdtemp(dir="/tmp/mut" if os.path.isdir("/tmp/mut") else None)
 wt = d + "/r"
@@ -21,7 +21,15 @@ try:
     r0 = run(["/venv/bin/python", f"{src}/{mi}_demo.py"], env=env, cwd=d)
     ran.append(f"clean tree: demo exit={r0.returncode}")
     ap = run(["git", "-C", wt, "apply", f"{src}/{mi}.diff"])
-    if ap.returncode: print("APPLY FAILED", ap.stderr); sys.exit(1)
+    rebased = None
+    if ap.returncode:
+        # written against an older HEAD (a fix: commit touched the same file since): 3-way merge, keep the re-based diff
+        ap = run(["git", "-C", wt, "apply", "--3way", f"{src}/{mi}.diff"])
+        if ap.returncode or "<<<<<<<" in "".join(open(os.path.join(r, f)).read() for r, _, fs in os.walk(wt + "/monkeytype") for f in fs if f.endswith(".py")):
+            print("APPLY FAILED", ap.stderr); sys.exit(1)
+        run(["git", "-C", wt, "reset", "-q"])
+        rebased = run(["git", "-C", wt, "diff", "HEAD"]).stdout
+        ran.append("patch re-based (3-way) onto the current HEAD")
     r1 = run(["/venv/bin/python", f"{src}/{mi}_demo.py"], env=env, cwd=d)
     ran.append(f"patched tree: demo exit={r1.returncode}")
     t = run(["/venv/bin/python", "-m", "pytest", "-q", "-p", "no:cacheprovider"], env=env, cwd=wt)
@@ -33,7 +41,10 @@ try:
     if not ok:
         print(r0.stdout[-500:], r1.stdout[-500:]); sys.exit(1)
     os.makedirs(dst, exist_ok=True)
-    shutil.copy(f"{src}/{mi}.diff", f"{dst}/patch.diff")
+    if rebased:
+        open(f"{dst}/patch.diff", "w").write(rebased)
+    else:
+        shutil.copy(f"{src}/{mi}.diff", f"{dst}/patch.diff")
     shutil.copy(f"{src}/{mi}_demo.py", f"{dst}/demo.py")
     if os.path.exists(f"{src}/{mi}.md"): shutil.copy(f"{src}/{mi}.md", f"{dst}/notes.md")
     base = subprocess.check_output(["git", "-C", "/repo", "rev-parse", "--short", "HEAD"], text=True).strip()
